@@ -880,7 +880,7 @@ func runCase(in Input, work string) (*vhlib.Case, error) {
 				return nil, err
 			}
 		case "delete":
-			if err := os.Remove(p); err != nil {
+			if err := os.Remove(p); err != nil && !errors.Is(err, os.ErrNotExist) {
 				return nil, err
 			}
 		case "rename":
